@@ -1,13 +1,14 @@
 PROP = dict(
     module="M3d.Props.C11",
-    corr=dict(quick=300, thorough=1200),
+    corr=dict(quick=300, thorough=1000),
     gen=[],
     corr_theorems=(
         "M3d.C11.needs_repair_iff / needs_repair_iff_two_faces / inconsistent_edges_eq / edge_balanced_iff_clean (diag3, diagd3), "
         "singular_vertices_eq / singular_search_exact / fan_adjacency_is_shared_edge_at_vertex / singular_iff_clusters / fan_connected_no_singular_vertices / closed_manifold_diagnostics_clean (diag3 sv), clusters_partition (clus3), "
-        "orientations_consistent_partial / majority_minimal_flips / repair_normals_majority_consistent (rnm3), repair_normals_restores (rn3, rn2), "
-        "repair_merges_classes (rep3, rep2), components_partition / hierarchy_partition / hierarchy_nodes_are_components / hierarchy_nesting / "
-        "hierarchy_contains_eq_evenodd (hier3, hier2), manifold2_iff / inconsistent_vertices2_eq / in_out_one_iff_clean2 (diag2). "
+        "orientations_consistent / orientation_groups_are_components / orientations_consistent_whole_mesh / orientation_search_exact (rnm3 groups, diag3 or=), "
+        "majority_minimal_flips / repair_normals_majority_consistent / repair_normals_majority_clean (rnm3), repair_normals_restores (rn3), repair_normals2_restores (rn2), "
+        "repair_merges_classes (rep3, rep2), components_partition / hierarchy_partition / hierarchy_nodes_are_components / hierarchy_probe_independent / "
+        "hierarchy_nesting / hierarchy_contains_eq_evenodd (hier3, hier2: parent = deepest exact encloser, ancestors = all enclosers, Contains = exact even-odd of the whole mesh), manifold2_iff / inconsistent_vertices2_eq / in_out_one_iff_clean2 (diag2). "
         "The driver prints what the DEFINITIONS give (edge multiplicities, naive closures, exact rational even-odd ray casting, Surface's proved "
         "deciders) and flags any disagreement between a faithful model and its definition (MODELDIFF), so a difference with the real output is a failing input."
     ),
@@ -15,8 +16,14 @@ PROP = dict(
         "closed manifolds (boxes, grid boxes, octa/tetrahedra, icospheres, tori, marching-cubes lattice solids incl. hollow ones, nested shells, "
         "several components, Moebius/annulus/Klein/torus grids) with 0-3 damages (open, open a vertex star, pinch two vertices, flip faces, flip a "
         "component, duplicate a face, fin, doubled fin/pillow, touching copy, tetrahedron glued on an edge / a vertex); jittered and chained "
-        "near-duplicate vertices for Repair (power-of-two epsilon); forests of nested boxes/octahedra to depth 5 with siblings for the hierarchy, "
-        "with off-grid query points; 2-D: nested polygons, circles, figure-eights, polylines with reversed/duplicated/removed/degenerate segments; "
+        "near-duplicate vertices for Repair (power-of-two epsilon; chains of copies 0.9*eps apart - consecutive ones share a grid hash, copies two steps apart "
+        "share none - around many vertices, along every axis and both directions, so that a non-transitive merge shows in several vertices whatever Go's map order); "
+        "forests of nested boxes/octahedra to depth 5 with siblings for the hierarchy, and NON-CONVEX, NON-CONCENTRIC nests: polyominoes (U, C, L, T, S, comb, "
+        "spiral, hook, ring with a hole, plus, random growths, all 8 symmetries) moved inwards by an inset, whose children live in their MATERIAL - followers (a "
+        "connected part of the parent's cells with a larger inset: a thin U in the material of a thick U) and slot children (fresh polyominoes on a finer grid "
+        "inside one cell), depth up to 5, several siblings per level, bounding-box centres in notches (counted: poly:nodes-with-bbox-centre-outside); in 3-D as "
+        "prisms with nested z-ranges built directly on the compressed coordinate grid or with ProfileMesh; query points in material cells and notches of every "
+        "node, all off-grid; 24 fixed cases box > thick U/C > thin U/C > small shapes in two arms (2-D and 3-D); 2-D: nested polygons, circles, figure-eights, polylines with reversed/duplicated/removed/degenerate segments; "
         "plus a fixed list of edge cases; distinct = distinct operation lines"
     ),
     trusted=[
@@ -26,8 +33,7 @@ PROP = dict(
         "rational even-odd ray casting in Lean on every rn3/rn2/hier3/hier2 case",
         "the sweep-order hypothesis of hierarchy_nesting (a component is swept after every component enclosing it) is the geometric argument in the code's "
         "comment (min of a fixed linear functional); it is an assumption of the theorem and is exercised, not proved",
-        "partial: orientation search - soundness proved (orientations_consistent_partial), partition into Neighbors-components and 'nil only if "
-        "non-orientable' only checked by correspondence; Surface.FanConnected => no singular vertex is proved, the converse is only cross-checked by the "
+        "partial: Surface.FanConnected => no singular vertex is proved, the converse is only cross-checked by the "
         "driver on every edge-balanced case; 2-D hierarchy tracing (traceLoop) modelled and checked by correspondence, partition theorem proved for 3-D only",
     ],
     assumptions=[
@@ -39,11 +45,14 @@ PROP = dict(
     level_text=(
         "Theorems (Lean 4, all meshes, every iteration order): NeedsRepair <-> some undirected edge not used exactly twice; InconsistentEdges = directed edges "
         "used twice; both together <-> Surface.EdgeBalanced; SingularVertices = vertices whose fan graph (share an edge at v) is disconnected; Clusters = its "
-        "components; a successful orientation search yields flips after which no directed edge repeats, and the majority vote flips min(k,n-k) faces per group; "
+        "components; the orientation search succeeds iff the mesh is orientable (some set of flips leaves no directed edge used twice), never reaches its 'impossible' "
+        "panic, its groups are exactly the Neighbors-components, its flags orient the whole mesh; the majority vote flips min(k,n-k) faces per group and the output of "
+        "RepairNormalsMajority is EdgeBalanced whenever NeedsRepair is false and the mesh is orientable; "
         "RepairNormals restores exactly what the even-odd oracle reports; Repair merges exactly the equivalence closure of 'share a grid hash' and maps to a "
         "representative inside the class; the hierarchy's FullMesh is a permutation of the input for every oracle, its nodes are the vertex-connected components; "
-        "with a laminar, sweep-compatible containment oracle, ancestor <-> encloses and Contains = parity of containing components; 2-D Manifold/InconsistentVertices "
-        "<-> Surface.InOutOne. Tie: the real diagnostics, repairs and hierarchies on damaged meshes are diffed against the definitions evaluated in Lean "
+        "the hierarchy depends only on how the probes classify whole components (hierarchy_probe_independent); with a laminar, sweep-compatible containment oracle, "
+        "ancestor <-> encloses and Contains = parity of containing components; 2-D Manifold/InconsistentVertices "
+        "<-> Surface.InOutOne; 2-D RepairNormals restores what its oracle reports. Tie: the real diagnostics, repairs and hierarchies on damaged meshes are diffed against the definitions evaluated in Lean "
         "(exact rational even-odd), with the faithful models run alongside."
     ),
     level_note=(
